@@ -422,3 +422,11 @@ Example C08_text_imm_reg_spelling_takes_one_token :
   front_line (exT 1) "    lw x11, %lo(end)(x10)" = FErr (PAsm (exT 1)) /\
   (exists it, front_line (exT 1) "    lw x11, x10, %lo(end)" = FOk (Some it)) /\ (exists it, front_line (exT 1) "    lw x11, end(x10)" = FOk (Some it)).
 Proof. split; [vm_compute; reflexivity|]. split; eexists; vm_compute; reflexivity. Qed.
+
+(* ---- Arithmetic.eval as the source has it (Gen/Guards.v): the expression text goes to the builtin eval as written, with no builtins and the
+   environment handed in; the POSITION of the item plays no part (so an arithmetic expression without labels is settled); every
+   exception becomes an AssemblerError at the line; the result must be an int *)
+From BB Require Gen.Guards Proofs.Guards.
+Theorem C08_arithmetic_eval_from_source : Proofs.Guards.arithmetic_eval_from_source_stmt.
+Proof. exact Proofs.Guards.arithmetic_eval_from_source. Qed.
+Print Assumptions C08_arithmetic_eval_from_source.
